@@ -431,6 +431,7 @@ pub fn run(prop: &str, tier: &str, seed: u64) -> Report {
     let r = parallel(cases.len(), util::threads(), |i, r| run_case(&cases[i], r, prop));
     total.merge(r);
     total.merge(clock_progress(prop, &pools));
+    total.merge(virtual_clock(prop, tier, seed, &pools));
     for &p in &ALL {
         let (acc, rej) = if prop == "C11" { ("strict-future", "strict-past") } else { ("strict-past", "strict-future") };
         total.require(&format!("{} accepted[{}]", p.name(), acc), 50);
@@ -439,6 +440,108 @@ pub fn run(prop: &str, tier: &str, seed: u64) -> Report {
         total.require(&format!("{} accepted[null]", p.name()), 1);
     }
     total
+}
+
+/// Virtual clock (hook `verif::set_now`): the default validators are exercised at MANY values of "now" — year and leap-day
+/// boundaries, 2^31 / 2^32 seconds, the i64-nanosecond limit (2262-04-11), far future — with claims at exact distances
+/// from it (down to +-1 ns), rendered with a sample of offsets and fraction lengths.  No clock margins are needed.
+/// exp: accept iff instant > now.  nbf: accept iff instant < now, reject iff instant > now, instant == now is not decided.
+fn virtual_clock(prop: &str, tier: &str, seed: u64, pools: &Pools) -> Report {
+    let is_exp = prop == "C11";
+    let thorough = tier == "thorough";
+    let mut nows: Vec<i128> = [
+        1i128, 86_399, 951_782_399, 951_868_799, 951_868_800, 978_307_199, 978_307_200, 1_709_251_199, 2_147_483_647, 2_147_483_648, 4_102_444_799, 4_102_444_800, 4_107_542_399, 4_294_967_295,
+        4_294_967_296, 9_223_372_036, 9_223_372_037, 13_569_465_599, 13_574_563_200, 32_503_679_999, 32_503_680_000, 100_000_000_000, 221_845_391_999,
+    ]
+    .iter()
+    .map(|s| s * 1_000_000_000)
+    .collect();
+    let mut rng = Rng::new(seed, "c11-virtual-now", is_exp as u64);
+    for _ in 0..(if thorough { 3000 } else { 200 }) {
+        nows.push((rng.next() % 221_000_000_000) as i128 * 1_000_000_000 + (rng.next() % 1_000_000_000) as i128);
+    }
+    // sub-second part of "now" matters for truncation bugs
+    nows.push(1_790_000_000_999_999_999);
+    nows.push(1_790_000_000_000_000_001);
+    let deltas: [i128; 27] = [
+        -31_536_000_000_000_000, -86_400_000_000_000, -3_600_000_000_000, -60_000_000_000, -1_000_000_000, -999_999_999, -1_000_000, -1, 0, 1, 1_000_000, 999_999_999, 1_000_000_000, 60_000_000_000,
+        3_600_000_000_000, 86_399_000_000_000, 86_400_000_000_000, 31_536_000_000_000_000, 2_147_483_648_000_000_000, 4_294_967_296_000_000_000, 9_223_372_036_000_000_000, 9_223_372_037_000_000_000,
+        15_000_000_000_000_000_000, 18_446_744_074_000_000_000, 30_000_000_000_000_000_000, -2_147_483_649_000_000_000, -9_223_372_037_000_000_000,
+    ];
+    let offsets: [i32; 9] = [0, -1439, -720, -1, 1, 330, 765, 1439, -300];
+    let protos: Vec<P> = if thorough { ALL.to_vec() } else { vec![P::V4L, P::V2L, P::V4P, P::V3L] };
+    let r = parallel(nows.len(), util::threads(), |i, r| {
+        let v = nows[i];
+        let p = protos[i % protos.len()];
+        let key = pools.key(p, 0);
+        let mut rng = Rng::new(seed, "c11-virtual", i as u64);
+        rusty_paseto::verif::set_now(Some(v));
+        for (di, d) in deltas.iter().enumerate() {
+            let t = v + d;
+            if t < 0 {
+                continue;
+            }
+            let (secs, nanos) = ((t / 1_000_000_000) as i64, (t % 1_000_000_000) as u32);
+            for (oi, &off) in offsets.iter().enumerate() {
+                if (oi + di + i) % 3 != 0 && off != 0 {
+                    continue;
+                }
+                // the rendering must stay a four-digit-year RFC 3339 string
+                let local_days = (secs + off as i64 * 60).div_euclid(86400);
+                let (ly, _, _) = civil_from_days(local_days);
+                if !(1..=9999).contains(&ly) {
+                    continue;
+                }
+                let style = if off == 0 { [Style::StrictZ, Style::MinusZero, Style::Strict][(di + i) % 3] } else { Style::Strict };
+                let text = render(secs, nanos, off, 9, style);
+                let payload = if is_exp { json!({"exp": text}) } else { json!({"nbf": text}) }.to_string();
+                let token = match core_seal(p, &key, &rng.bytes(32), &payload, None, None).0 {
+                    Out::Ok(t) => t,
+                    _ => continue,
+                };
+                let cfg = ParserCfg { default_parser: true, ..Default::default() };
+                let out = batteries_open(p, &key, &token, &cfg).0;
+                r.evaluations += 1;
+                let want: Option<bool> = if is_exp { Some(*d > 0) } else if *d == 0 { None } else { Some(*d < 0) };
+                let vnow = render((v / 1_000_000_000) as i64, (v % 1_000_000_000) as u32, 0, 9, Style::StrictZ);
+                let replay = json!({"cmd": prop, "note": "virtual-clock case: re-run the check", "protocol": p.name(), "virtual_now": vnow, "claim": text, "delta_ns": d.to_string()});
+                match (&out, want) {
+                    (Out::Panic(l), _) => r.violation(format!("{} panic virtual-clock", prop), format!("{}: panic with now={} claim={}: {}", p.name(), vnow, text, l), replay),
+                    (Out::Ok(_), Some(false)) => r.violation(
+                        format!("{} out-of-window-accepted virtual-clock delta={}", prop, delta_class(*d)),
+                        format!("{}: with the clock at {} the default parser ACCEPTED {}={} ({} ns {} now)", p.name(), vnow, if is_exp { "exp" } else { "nbf" }, text, d.abs(), if *d < 0 { "before" } else if *d == 0 { "==" } else { "after" }),
+                        replay,
+                    ),
+                    (Out::Err(e), Some(true)) => r.violation(
+                        format!("{} valid-token-rejected virtual-clock delta={} err={}", prop, delta_class(*d), e),
+                        format!("{}: with the clock at {} the default parser REJECTED ({}) {}={} ({} ns {} now)", p.name(), vnow, e, if is_exp { "exp" } else { "nbf" }, text, d.abs(), if *d < 0 { "before" } else { "after" }),
+                        replay,
+                    ),
+                    _ => {
+                        r.count(&format!("{} virtual-clock verdicts as expected", p.name()));
+                        r.distinct(format!("{}|vclock|{}|{}|{}", p.name(), i, di, off));
+                        if want.is_none() {
+                            r.see("nbf == now exactly (not decided by the property)", out.class());
+                        }
+                    }
+                }
+            }
+        }
+        rusty_paseto::verif::set_now(None);
+    });
+    let mut r = r;
+    r.require("v4.local virtual-clock verdicts as expected", 500);
+    r
+}
+
+fn delta_class(d: i128) -> &'static str {
+    match d.abs() {
+        0 => "0",
+        1..=999_999_999 => "sub-second",
+        1_000_000_000..=86_400_000_000_000 => "second-to-day",
+        86_400_000_000_001..=9_000_000_000_000_000_000 => "day-to-285y",
+        _ => "beyond-2^63ns",
+    }
 }
 
 /// Time must be read at EVERY parse: one parser object (and a fresh one) sees a claim cross "now" while it lives.
@@ -529,4 +632,4 @@ pub fn replay(prop: &str, case: &Value) -> Report {
     r
 }
 
-pub const RULE: &str = "payloads {\"exp\"|\"nbf\": value} are crafted at the core layer and parsed with PasetoParser::default(). Values: 21 instants (now-2s, -1min, -1h, -1d, -1y, 2000-01-01, 1971; now+60s, +1h, +1d, +1y, 2999, 9000-01-01, and now + {2^31, 2^32 seconds, 2^63 ns -/+ 1 min, 475 y, 2^64 ns, 3170 y}) rendered by the harness's own calendar arithmetic with EVERY UTC offset -23:59..+23:59 x 0..9 fractional digits (strict grammar), 'Z', '-00:00' and lenient variants (space, 't', 'z') — full space on v4.local (thorough: all four local protocols and v2/v4 public), 300 (thorough 60000) sampled renderings on each other protocol; a catalogue of 40 non-timestamp values (numbers, booleans, arrays, objects, empty string, near-miss date strings) plus random text; null; absent; a sample of the strict cases and the grid once more with check_claim(<the token's own value>) registered on the default parser (the time check must still apply); C12 additionally the 3x3 grid of (exp, nbf) in {past, future, absent} x 3 offsets. Plus clock-progress histories on all 8 protocols: a claim 1.5 s in the future is parsed, 2.6 s pass, and the SAME parser object (and a fresh one) must now give the opposite answer. Oracle: instant known by construction; strict renderings decide both ways, lenient renderings must merely never be accepted when out of window. distinct_nontrivial = distinct (protocol, outcome, class, instant, offset, fraction length, style) tuples";
+pub const RULE: &str = "payloads {\"exp\"|\"nbf\": value} are crafted at the core layer and parsed with PasetoParser::default(). Values: 21 instants (now-2s, -1min, -1h, -1d, -1y, 2000-01-01, 1971; now+60s, +1h, +1d, +1y, 2999, 9000-01-01, and now + {2^31, 2^32 seconds, 2^63 ns -/+ 1 min, 475 y, 2^64 ns, 3170 y}) rendered by the harness's own calendar arithmetic with EVERY UTC offset -23:59..+23:59 x 0..9 fractional digits (strict grammar), 'Z', '-00:00' and lenient variants (space, 't', 'z') — full space on v4.local (thorough: all four local protocols and v2/v4 public), 300 (thorough 60000) sampled renderings on each other protocol; a catalogue of 40 non-timestamp values (numbers, booleans, arrays, objects, empty string, near-miss date strings) plus random text; null; absent; a sample of the strict cases and the grid once more with check_claim(<the token's own value>) registered on the default parser (the time check must still apply); C12 additionally the 3x3 grid of (exp, nbf) in {past, future, absent} x 3 offsets. Plus a VIRTUAL-CLOCK sweep through the hook verif::set_now: 225 (thorough 3025) values of 'now' (year/leap-day boundaries, 2^31/2^32 s, the i64-nanosecond limit 2262-04-11, up to year 8999, random, odd sub-second parts) x 27 distances from +-1 ns to +-950 years x sampled offsets, all with 9 fraction digits: exp accepted iff instant > now, nbf accepted iff instant < now (== now not decided). Plus clock-progress histories on all 8 protocols: a claim 1.5 s in the future is parsed, 2.6 s pass, and the SAME parser object (and a fresh one) must now give the opposite answer. Oracle: instant known by construction; strict renderings decide both ways, lenient renderings must merely never be accepted when out of window. distinct_nontrivial = distinct (protocol, outcome, class, instant, offset, fraction length, style) tuples";
